@@ -103,6 +103,13 @@ CHECKS = {
         note="The by-index default is computed with the reference type checker; spots where the documentation is silent (ops on a missing container other than with_, mapping with_ without value, identity-sensitive transforms) are unconstrained.",
         ref="DESIGN.md section 4, C06",
     ),
+    "C09": dict(
+        level="exploration",
+        technique="model-based property testing: Hypothesis-generated class hierarchies x enumerated keyword subsets against a reference resolution computed from the hierarchy descriptor",
+        text="Hypothesis generates hierarchies of depth <= 3 (spec parents with generated or hand-written constructors of the documented shape, two spec parents, plain subclasses, re-declared and re-defaulted attributes, init=False attributes, key with/without default, overflow attribute, preparers, __post_init__ at different levels); for each, every subset of init-enabled keywords with conforming values plus ill-typed, unknown, init=False-named and positional-key calls is constructed and compared with a descriptor-only model: prepared keyword, else nearest default along the MRO, else missing, parent-owned attributes through the parent's constructor, overflow contents, TypeError cases, __post_init__ exactly once on the final state.",
+        note="Trusts the reference model in vf/props/c09.py (Model.construct); undocumented shapes are not generated (bare re-annotation over an inherited default_factory / init=False flag, hand-written constructors not matching their class's declarations).",
+        ref="DESIGN.md section 4, C09",
+    ),
 }
 
 NOT_YET = "check not built yet in this revision (see DESIGN.md section 9 for the order); nothing is claimed"
